@@ -150,6 +150,8 @@ class Interp:
         self.solver.set('timeout', 400)
         self.no_prune = False
         self.ob_counter: Dict[str, int] = {}
+        self.ghost: Dict[str, object] = {}
+        self.ghost_names: Dict[str, int] = {}
         SObj._next[0] = 0
 
     def fresh(self, base, sort='int'):
